@@ -2180,9 +2180,8 @@ func (s *ImmuStore) SetExternalCommitAllowance(enabled bool) {
 }
 
 // DiscardPrecommittedTxsSince discard precommitted txs
-// No truncation is made into txLog which means, if the store is reopened
-// some precommitted transactions may be reloaded.
-// Discarding may need to be redone after re-opening the store.
+// The tx log is cut at the end of the last transaction that is kept: discarded
+// transactions are not reloaded when the store is reopened.
 func (s *ImmuStore) DiscardPrecommittedTxsSince(txID uint64) (int, error) {
 	s.mutex.Lock()
 	defer s.mutex.Unlock()
@@ -2213,10 +2212,37 @@ func (s *ImmuStore) DiscardPrecommittedTxsSince(txID uint64) (int, error) {
 		return 0, err
 	}
 
+	// the discarded records are cut off the tx log: its logical end goes back to the end of the last
+	// transaction that is kept, so that they cannot be found again when the store is reopened and are
+	// overwritten by the next pre-committed transaction
+	var keptTxLogSize int64
+
+	if txID-1 > s.committedTxID {
+		_, _, txOff, txSize, err := s.cLogBuf.readAhead(int(txID - s.committedTxID - 2))
+		if err != nil {
+			return 0, err
+		}
+		keptTxLogSize = txOff + int64(txSize)
+	} else if s.committedTxID > 0 {
+		txOff, txSize, err := s.txOffsetAndSize(s.committedTxID)
+		if err != nil {
+			return 0, err
+		}
+		keptTxLogSize = txOff + int64(txSize)
+	}
+
 	// s.cLogBuf inludes all precommitted transactions (even durable ones)
 	err = s.cLogBuf.recedeWriter(txsToDiscard)
 	if err != nil {
 		return 0, err
+	}
+
+	if keptTxLogSize < s.precommittedTxLogSize {
+		err = s.txLog.SetOffset(keptTxLogSize)
+		if err != nil {
+			return 0, fmt.Errorf("%w: could not set offset in txLog", err)
+		}
+		s.precommittedTxLogSize = keptTxLogSize
 	}
 
 	defer func() {
@@ -2297,6 +2323,15 @@ func (s *ImmuStore) mayCommit() error {
 		return err
 	}
 
+	// entries appended by an attempt that does not complete must not stay behind: they would be
+	// flushed by Close and taken for committed transactions when the store is reopened
+	completed := false
+	defer func() {
+		if !completed {
+			s.cLog.SetOffset(int64(s.committedTxID) * int64(s.cLogEntrySize))
+		}
+	}()
+
 	var commitUpToTxID uint64
 	var commitUpToTxAlh [sha256.Size]byte
 
@@ -2340,6 +2375,8 @@ func (s *ImmuStore) mayCommit() error {
 	if err != nil {
 		return err
 	}
+
+	completed = true
 
 	s.committedTxID = commitUpToTxID
 	s.committedAlh = commitUpToTxAlh
@@ -3626,6 +3663,15 @@ func (s *ImmuStore) sync() error {
 		return err
 	}
 
+	// entries appended by an attempt that does not complete must not stay behind: they would be
+	// flushed by Close and taken for committed transactions when the store is reopened
+	completed := false
+	defer func() {
+		if !completed {
+			s.cLog.SetOffset(int64(s.committedTxID) * int64(s.cLogEntrySize))
+		}
+	}()
+
 	var commitUpToTxID uint64
 	var commitUpToTxAlh [sha256.Size]byte
 
@@ -3674,6 +3720,8 @@ func (s *ImmuStore) sync() error {
 	if err != nil {
 		return err
 	}
+
+	completed = true
 
 	s.committedTxID = commitUpToTxID
 	s.committedAlh = commitUpToTxAlh
